@@ -119,7 +119,7 @@ func Setup(t *rapid.T) []model.Op {
 
 func GenRegPipe(t *rapid.T, distinctRoots bool) model.Op {
 	pi := rapid.IntRange(0, len(PipeIDs)-1).Draw(t, "pid")
-	op := model.Op{K: "regpipe", P: PipeIDs[pi], ET: rapid.SampledFrom(Types).Draw(t, "et"), Pol: rapid.SampledFrom([]int{0, 0, 0, 1, 2}).Draw(t, "pol")}
+	op := model.Op{K: "regpipe", P: PipeIDs[pi], ET: rapid.SampledFrom(Types).Draw(t, "et"), Pol: rapid.SampledFrom([]int{0, 0, 0, 1, 2}).Draw(t, "pol"), Dress: rapid.SampledFrom([]int{0, 0, 0, 1, 2, 3}).Draw(t, "dress")}
 	if rapid.IntRange(0, 9).Draw(t, "wild") == 0 {
 		op.IDs = rapid.SliceOfN(rapid.SampledFrom(Pool()), 1, 5).Draw(t, "ids")
 		return op
@@ -169,7 +169,7 @@ func GenSend(t *rapid.T, distinctRoots bool, cancelWeight int) *SendStep {
 	s.ErrKinds = map[string]int{}
 	for id, b := range s.Script {
 		if b == nodes.Fail || b == nodes.FailEv {
-			s.ErrKinds[id] = rapid.SampledFrom([]int{nodes.ErrPlain, nodes.ErrPlain, nodes.ErrMultiAgg, nodes.ErrMultiNil, nodes.ErrJoined, nodes.ErrWrapped}).Draw(t, "errKind-"+id)
+			s.ErrKinds[id] = rapid.SampledFrom([]int{nodes.ErrPlain, nodes.ErrPlain, nodes.ErrMultiAgg, nodes.ErrMultiNil, nodes.ErrJoined, nodes.ErrWrapped, nodes.ErrCtxDeadline, nodes.ErrCtxCanceled}).Draw(t, "errKind-"+id)
 		}
 	}
 	return s
